@@ -5,6 +5,7 @@ package main
 // recover() that assigns the function's error result.
 
 import (
+	"fmt"
 	"go/token"
 	"go/types"
 	"strconv"
@@ -460,5 +461,115 @@ func c01r2(w *World, rr *RuleRun) {
 	}
 	for _, f := range scope {
 		w.CheckBounds(rr, f)
+	}
+	w.checkFixedWidthAccessors(rr)
+}
+
+// checkFixedWidthAccessors: encoding/binary's ByteOrder accessors (Uint16/32/64, PutUint16/32/64) index
+// their slice unconditionally; every library call must hand them a slice that is provably long
+// enough. This covers the encoders too: a reply is encoded with MustMarshal in a bare goroutine, so
+// a panic there takes the process down.
+func (w *World) checkFixedWidthAccessors(rr *RuleRun) {
+	width := map[string]int64{"Uint16": 2, "Uint32": 4, "Uint64": 8, "PutUint16": 2, "PutUint32": 4, "PutUint64": 8}
+	n := 0
+	eachInstr(w.P.LibFuncs, func(fn *ssa.Function, ins ssa.Instruction) {
+		c := callInstrCommon(ins)
+		if c == nil {
+			return
+		}
+		var name string
+		var arg ssa.Value
+		if c.IsInvoke() {
+			if c.Method.Pkg() == nil || c.Method.Pkg().Path() != "encoding/binary" || len(c.Args) == 0 {
+				return
+			}
+			name, arg = c.Method.Name(), c.Args[0]
+		} else {
+			o := calleeObj(c)
+			if o == nil || o.Pkg() == nil || o.Pkg().Path() != "encoding/binary" || o.Type().(*types.Signature).Recv() == nil || len(c.Args) < 2 {
+				return
+			}
+			name, arg = o.Name(), c.Args[1]
+		}
+		need, ok := width[name]
+		if !ok {
+			return
+		}
+		n++
+		what := fmt.Sprintf("binary.%s is handed at least %d bytes", name, need)
+		// the operand is x[lo:hi]: its length is hi-lo
+		if sl, isSl := arg.(*ssa.Slice); isSl {
+			if al, isArr := arrayLen(sl.X.Type()); isArr {
+				lo, hi := int64(0), al
+				okc := true
+				if sl.Low != nil {
+					if v, isC := ConstInt(sl.Low); isC {
+						lo = v
+					} else {
+						okc = false
+					}
+				}
+				if sl.High != nil {
+					if v, isC := ConstInt(sl.High); isC {
+						hi = v
+					} else {
+						okc = false
+					}
+				}
+				if okc {
+					rr.At(w, ins, what, hi-lo >= need, fmt.Sprintf("array window of %d bytes", hi-lo))
+					return
+				}
+				// offset = copy(x[lo0:hi0], ...) ≤ hi0-lo0 leaves at least len(x)-(hi0-lo0) bytes
+				if cp, isCall := sl.Low.(*ssa.Call); isCall && sl.High == nil {
+					if bi, isB := cp.Call.Value.(*ssa.Builtin); isB && bi.Name() == "copy" {
+						if dst, isS := cp.Call.Args[0].(*ssa.Slice); isS && dst.X == sl.X {
+							lo0, hi0, okd := int64(0), al, true
+							if dst.Low != nil {
+								if v, isC := ConstInt(dst.Low); isC {
+									lo0 = v
+								} else {
+									okd = false
+								}
+							}
+							if dst.High != nil {
+								if v, isC := ConstInt(dst.High); isC {
+									hi0 = v
+								} else {
+									okd = false
+								}
+							}
+							if okd {
+								left := al - (hi0 - lo0)
+								rr.At(w, ins, what, left >= need, fmt.Sprintf("the offset is a copy count of at most %d into an array of %d: as few as %d bytes are left", hi0-lo0, al, left))
+								return
+							}
+						}
+					}
+				}
+				rr.At(w, ins, what, false, "window "+w.TS.Of(sl).String()+" of a fixed array starts or ends at a computed offset: nothing bounds what is left")
+				return
+			}
+			if sl.High == nil && sl.Low != nil {
+				lo := w.TS.Of(sl.Low)
+				lb := &Term{Op: OpLen, Args: []*Term{w.TS.Of(sl.X)}}
+				if lo.Op == OpBin && lo.Name == "-" && lo.Args[0].String() == lb.String() {
+					if cst, isC := constOf(lo.Args[1]); isC {
+						rr.At(w, ins, what, cst >= need, fmt.Sprintf("tail window of %d bytes (its own bounds are checked as a slice site)", cst))
+						return
+					}
+				}
+			}
+		}
+		av := arg
+		w.Require(rr, ins, what, func(alt *Alt) (bool, string) {
+			if lenAtLeast(alt, w.FE.Resolve(alt, av), need) {
+				return true, "length fact"
+			}
+			return false, "no fact len(" + trunc(w.FE.Resolve(alt, av).String(), 80) + ") ≥ " + strconv.FormatInt(need, 10)
+		})
+	})
+	if n == 0 {
+		rr.Oblige("(library)", "fixed-width binary accessors examined", "-", false, "none found")
 	}
 }
